@@ -128,6 +128,14 @@ def run_ops(texts):
     return out
 
 
+def _has_mdup(e):
+    if isinstance(e, dict):
+        return bool(e.get("mdup")) or any(_has_mdup(v) for v in e.values())
+    if isinstance(e, list):
+        return any(_has_mdup(x) for x in e)
+    return False
+
+
 def _diff_job(arg):
     items, noopt = arg
     return langrun.run_batch((items, {"__noopt": True} if noopt else {}))
@@ -209,8 +217,15 @@ def run(chk):
     for i, text in texts:
         chk.count(2, traces=1)
         if on[i] != offr[i]:
+            # F-C01-munge-params seen through this property: a fn whose parameters collide after munging is a
+            # Python SyntaxError; when it sits in code the pass drops as unreachable the program compiles only WITH
+            # the pass.  Signature = that input class + exactly that outcome; anything else stays unexplained.
+            sig = None
+            if offr[i][0] == "exc" and offr[i][1].get("c") == "SyntaxError" and _has_mdup(G.annotate(items[i]["prog"])):
+                sig = "dev:MungeParams(unreachable-code-dropped)"
             chk.discrepancy("Opt!RewritePreserves(exec)", {"kind": "prog", "text": text},
-                            {"with_pass_off": offr[i]}, {"with_pass_on": on[i]}, module="Opt", direction="code->spec")
+                            {"with_pass_off": offr[i]}, {"with_pass_on": on[i]}, sig=sig, module="Opt",
+                            direction="code->spec")
     chk.extra["programs_executed_both_ways"] = len(texts) + len(OP_PROGRAMS)
 
 
